@@ -159,8 +159,11 @@ def keyless(t, job, part):
     x = t.x; ck = t.ck; expected = set(job['expected']); conf = job['conf']
     extra_adv = t.adv - expected; missing = expected - t.adv
     part.case((conf, 'C_GetMechanismList'), nontrivial=True)
-    for m in sorted(extra_adv): part.violation(f'C_GetMechanismList|{job["ckind"]}-list,{m}|removed-by-config|advertised', f'{m} is advertised although slots.mechanisms removed it', {'config': job['ckind'], 'removed': job['cnames']})
-    for m in sorted(missing): part.observe('mechanism missing from the advertised list although the configuration keeps it', {'conf': conf, 'mech': m})
+    lab = job.get('clabel', job['ckind'])
+    for m in sorted(extra_adv): part.violation(f'C_GetMechanismList|{lab}-list,{m}|removed-by-config|advertised', f'{m} is advertised although slots.mechanisms removed it', {'config': lab, 'line': MT.conf_line(job['ckind'], job['cnames']).strip()})
+    for m in sorted(missing): part.violation(f'C_GetMechanismList|{lab}-list,{m}|kept-by-config|not-advertised', f'{m} is missing from the advertised list although slots.mechanisms keeps it (the list is not "the compiled-in list as restricted by slots.mechanisms")', {'config': lab, 'line': MT.conf_line(job['ckind'], job['cnames']).strip()})
+    for m in sorted(expected): part.case((conf, 'advertised', m), nontrivial=True)
+    for m in sorted(set(job['all_adv']) - expected): part.case((conf, 'not-advertised', m), nontrivial=True)
     for mech in job['uni']:
         advertised = mech in t.adv and mech in expected
         why = 'removed-by-config' if mech in job['all_adv'] else 'not-advertised'
@@ -281,12 +284,21 @@ def run(ctx):
         for o in pobs: ctx.observe(f'{b}: advertised mechanism without a working positive control (exact key type)', o, cap=40)
         ctx.extra[f'{b}_universe'] = len(uni); ctx.extra[f'{b}_advertised'] = len(adv); ctx.extra[f'{b}_live_op_mech_pairs'] = len(live)
         rnd = __import__('random').Random(ctx.seed * 7919 + len(b)); removed = pick_removed(rnd, adv)
-        confs = [('ALL', 'ALL', [])] + [('neg', 'neg', removed)] + ([('pos', 'pos', removed)] if not ctx.quick else [])
-        ctx.extra.setdefault('configurations', []).append({b: [(c, n) for c, _, n in confs]})
-        jobs = []
-        for conf, ckind, names in confs:
-            base = dict(paths=p, hdr=p['hdr'], scratch=ctx.scratch, conf=f'{b}:{conf}', ckind=ckind, cnames=names, uni=uni, art=art, live=live, all_adv=set(adv), expected=sorted(MT.expected_list(adv, ckind, names)))
-            for kind in K.ALL_KINDS: jobs.append(dict(base, what='table', kind=kind, name=f'{b}-{conf}-{kind}'))
+        confs = [('ALL', 'ALL', [], True)] + [('neg', 'neg', removed, True)] + ([('pos', 'pos', removed, True)] if not ctx.quick else [])
+        # softhsm2.conf(5): "Unknown mechanisms are ignored" -- names the library does not know (a v3.0 name, a typo, a GOST name of a build without GOST) at the front and in
+        # the middle of a negative and of a positive list must change nothing else.  The expected list is always computed from the configuration TEXT and the ALL list.
+        unk = [n for n in ('CKM_SHA3_256', 'CKM_AES_CBCC', 'CKM_GOSTR3411', 'CKM_NO_SUCH_MECHANISM') if n not in adv]
+        for ck_ in ('neg', 'pos'):
+            r2 = pick_removed(rnd, adv)[:28]
+            confs.append((f'{ck_}-unknown@front', ck_, [unk[0]] + r2, not ctx.quick))
+            mid = list(pick_removed(rnd, adv)[:28]); mid.insert(len(mid) // 3, unk[1]); mid.insert(2 * len(mid) // 3, unk[2]); mid.insert(1, unk[3])
+            confs.append((f'{ck_}-unknown@middle', ck_, mid, not ctx.quick))
+        ctx.extra.setdefault('configurations', []).append({b: [(c, n) for c, _, n, _ in confs]})
+        jobs = []; SUBSET = ('AES16', 'DES3', 'GEN64', 'HSHA256', 'RSApub', 'RSApriv', 'DSApriv', 'DHpriv', 'ECpub', 'ECpriv', 'EDpriv')
+        for conf, ckind, names, full in confs:
+            assert len(MT.conf_line(ckind, names)) < 1000
+            base = dict(paths=p, hdr=p['hdr'], scratch=ctx.scratch, conf=f'{b}:{conf}', ckind=ckind, clabel=conf, cnames=names, uni=uni, art=art, live=live, all_adv=set(adv), expected=sorted(MT.expected_list(adv, ckind, names)))
+            for kind in (K.ALL_KINDS if full else SUBSET): jobs.append(dict(base, what='table', kind=kind, name=f'{b}-{conf}-{kind}'))
             jobs.append(dict(base, what='keyless', name=f'{b}-{conf}-keyless'))
         jobs.append(dict(paths=p, hdr=p['hdr'], scratch=ctx.scratch, conf=f'{b}:ALL', ckind='ALL', cnames=[], art=art, what='auth', name=f'{b}-auth'))
         for part in pmap(worker, jobs, ctx.nproc): ctx.merge(part)
@@ -295,5 +307,7 @@ def run(ctx):
     ctx.assumptions += ['"fits" is family level only (vlib/mechtable.py); a refusal is never a violation (the statement is "starts only if"); refused positive controls are observations',
                         'single DES is excluded from positive controls (system OpenSSL 3 without the legacy provider)',
                         'slots.mechanisms lists are limited to ~850 characters because SimpleConfigLoader reads lines of at most 1023 bytes',
+                        'the expected advertised list of a configuration is computed from the configuration TEXT and the list read under ALL (unknown names are ignored, softhsm2.conf(5)); an advertised list that differs from it in EITHER direction is reported (removed-but-advertised fails open; kept-but-missing means the list is not the one slots.mechanisms describes)',
+                        'quick: the four unknown-name configurations run the key-less entry points, the list comparison and the table for 11 of the 27 key kinds; exhaustive: true refers to the ALL / negative / positive configurations',
                         'C_SignRecoverInit / C_VerifyRecoverInit are unsupported by the library (CKR_FUNCTION_NOT_SUPPORTED) and outside the 7 keyed kinds']
 if __name__ == '__main__': main('C07', run, min_evaluations=20000, min_distinct=2000)
